@@ -145,8 +145,40 @@ func (ex *Exec) havocAllHeap(st *State) {
 	ex.allocFrontierBump(st)
 }
 
-// havocClass forgets every heap map of one class.
+// havocClass forgets every heap map of one class.  Objects of dependency types
+// that the code under verification allocated itself and never handed out keep
+// their state when foreign state is forgotten (nobody else can reach them).
 func (ex *Exec) havocClass(st *State, cls int) {
+	if cls == clsForeign && len(ex.ownedForeign) > 0 {
+		type keep struct {
+			key  string
+			comp int
+			sort Sort
+			ref  *Term
+			val  *Term
+		}
+		var keeps []keep
+		for id, o := range ex.ownedForeign {
+			if ex.sharedRefs[id] {
+				continue
+			}
+			key := typeKey(o.t)
+			for i, c := range ex.L.rootComps(o.t) {
+				h := ex.heapMap(st, key, i, c.Sort)
+				keeps = append(keeps, keep{key, i, c.Sort, o.ref, ex.tb.Select(h, o.ref)})
+			}
+		}
+		ex.havocClassRaw(st, cls)
+		for _, k := range keeps {
+			h := ex.heapMap(st, k.key, k.comp, k.sort)
+			ex.setHeapMap(st, k.key, k.comp, ex.tb.Store(h, k.ref, k.val))
+		}
+		return
+	}
+	ex.havocClassRaw(st, cls)
+}
+
+func (ex *Exec) havocClassRaw(st *State, cls int) {
 	ex.epoch++
 	for k := range st.heap {
 		if heapClass(k) == cls {
